@@ -133,6 +133,15 @@ def redirectClose (p : Resp) (reqHost : Str) : Bool :=
     | _ => false
   else false
 
+/-- position of a step in the inner loop of serverForwardResponses -/
+def stepIdx (name : String) : Nat := respSteps.idxOf name
+
+/-- does the `req.Close || resp.Close` test come before the test for a final response (so that it also
+    applies to interim responses)? -/
+def closeTestFirst : Bool := stepIdx "closeTest" < stepIdx "finalTest"
+
+def isFinal (status : Nat) : Bool := decide (status ≥ finalStatus)
+
 /-- what serverForwardResponses does to a response paired with request `q`; returns the response written
     and whether the connection ends after it -/
 def filterResp (p0 : Resp) (q : Req) : Resp × Bool :=
@@ -140,7 +149,7 @@ def filterResp (p0 : Resp) (q : Req) : Resp × Bool :=
   let close := respClose p || redirectClose p q.host
   let conn := values p.header connLit
   ({ p with header := removeHopByHop p.header conn, trailer := fwdTrailer p.announced p.trailer conn },
-   q.close || close)
+   (q.close || close) && (closeTestFirst || isFinal p.status))
 
 /-! ### ServerHandle: the 407 loop -/
 
@@ -255,7 +264,7 @@ inductive Step : St → St → Prop
   /-- ReadResponse + filter + Write + Flush, then the close / final tests -/
   | rRead (s : St) (p : Resp) (rest : List Resp) (q : Req) : s.rphase = .read → s.rcur = some q → s.originOut = p :: rest →
       Step s { s with originOut := rest, clientOut := s.clientOut ++ [((filterResp p q).1, q)],
-                      rphase := if (filterResp p q).2 then .done else if p.status ≥ finalStatus then .peek else .read,
+                      rphase := if (filterResp p q).2 then .done else if isFinal p.status then .peek else .read,
                       respDone := (filterResp p q).2 }
   /-- ReadResponse / Write fails -/
   | rErr (s : St) : s.rphase = .read → Step s { s with rphase := .done, respDone := true }
@@ -281,7 +290,7 @@ def respond : List Req → List Resp → List (Resp × Req)
   | q :: qs, p :: ps =>
     let (p', close) := filterResp p q
     if close then [(p', q)]
-    else if p.status ≥ finalStatus then (p', q) :: respond qs ps
+    else if isFinal p.status then (p', q) :: respond qs ps
     else (p', q) :: respond (q :: qs) ps
 termination_by _ ps => ps.length
 
